@@ -40,9 +40,66 @@ def instances(tier):
         TR("inverse-copy-reset-clear-3-r%d" % bits, {"CASE": 4, "NA": 3, "NB": 0, "RBITS": bits}, desc={"what": "inverse of empty, copy, reset, clear"})
         TR("union_rect-degenerate-r%d" % bits, {"CASE": 7, "NA": 2, "NB": 1, "RBITS": bits, "ZW": 0, "ZH": 5}, desc={"what": "union_rect with an empty rectangle copies the source into a destination holding stale content"})
         TR("rect-and-inits-r%d" % bits, {"CASE": 5, "NA": 1, "RBITS": bits}, desc={"what": "intersect_rect, init_rect, init_with_extents"})
+    L.extend(shortcut_instances(tier))
+    L.extend(sweep_instances(tier, "C05"))
     if tier == "thorough":
         for al in (1, 2):
             TR("intersect-1-1-alias%d-r16" % al, {"CASE": 0, "NA": 1, "NB": 1, "ALIAS": al, "RBITS": 16}, desc={"what": "intersect singles, aliasing"})
+    return L
+
+
+# band layouts: one (y1, y2) pair per rectangle; equal pairs form a band
+LAYOUTS = {
+    "1": [(0, 4)],
+    "2h": [(0, 4), (0, 4)],                       # one band, two rectangles
+    "2v": [(0, 2), (2, 5)],                       # two abutting bands
+    "2g": [(0, 2), (3, 5)],                       # two bands with a gap
+    "3a": [(0, 2), (0, 2), (2, 5)],
+    "3b": [(1, 3), (3, 6), (3, 6)],
+    "3v": [(0, 1), (1, 3), (4, 6)],
+    "4a": [(0, 2), (0, 2), (2, 5), (2, 5)],
+    "1m": [(1, 3)],
+    "1l": [(2, 8)],
+}
+OPN = {0: "union", 1: "intersect", 2: "subtract", 3: "inverse"}
+
+
+def sweep_inst(name, op, la, lb, alias=0, bits=32, failk=None, timeout=900, **k):
+    ya, yb = LAYOUTS[la], LAYOUTS[lb]
+    d = {"OPSEL": op, "NA": len(ya), "NB": len(yb), "ALIAS": alias, "RBITS": bits,
+         "AY": ",".join("%d,%d" % p for p in ya), "BY": ",".join("%d,%d" % p for p in yb)}
+    if failk:
+        d["FAILK"] = failk
+    return Inst(name, "C05/sweep.c", d, link=[], unwind=12, timeout=timeout,
+                desc={"what": "pixman_op band sweep via %s: concrete band structure A=%s B=%s, all x coordinates symbolic (full width), alias=%d" % (OPN[op], ya, yb, alias)}, **k)
+
+
+def shortcut_instances(tier, ops=(0, 1, 2, 3), prefix="around-sweep"):
+    L = []
+    shapes = ((1, 2, 0), (2, 1, 0), (2, 2, 2), (1, 2, 1)) if tier == "quick" else \
+        tuple((na, nb, al) for na in (1, 2, 3) for nb in (1, 2, 3) for al in (0, 1, 2))
+    for op in ops:
+        for na, nb, al in shapes:
+            if op == 3 and (na != 1 or al == 1):
+                continue
+            for bits in (32, 16):
+                if bits == 16 and (tier == "quick" and (na, nb, al) != (1, 2, 0)):
+                    continue
+                L.append(Inst("%s-%s-%d-%d-alias%d-r%d" % (prefix, OPN[op], na, nb, al, bits), "C05/shortcuts.c",
+                              {"OPSEL": op, "NA": na, "NB": nb, "ALIAS": al, "RBITS": bits}, link=[], unwind=6, timeout=900,
+                              replace_calls=("pixman_op:vp_op_stub",),
+                              desc={"what": "%s on arbitrary canonical operands (%d and %d rectangles, full-width symbolic): every return that does not enter the band sweep is exact and canonical; sweep entered with the right arguments; extents post-processing right (pixman_op replaced by a contract stub)" % (OPN[op], na, nb)}))
+    return L
+
+
+def sweep_instances(tier, pid):
+    L = []
+    # MEASURED: even with the band structure concrete (only x symbolic) every one of these ran out of 12 GB during
+    # propositional reduction after ~300 s (witness twin already) - not registered; harness kept for the record.
+    return L
+    quick = [(0, "2v", "1m", 0), (0, "1", "2h", 2), (1, "2v", "2h", 0), (2, "2v", "1m", 1), (3, "1l", "2g", 0)]
+    for op, la, lb, al in quick:
+        L.append(sweep_inst("sweep-%s-%s-%s-alias%d-r32" % (OPN[op], la, lb, al), op, la, lb, al))
     return L
 
 
